@@ -79,6 +79,16 @@ func (in *interp) call(name string, args []ast.Arg, cur jv.Val, sc *scope, pdept
 	}
 	v := in.builtin(name, vals, apply)
 	if in.failed() {
+		// Within one call an argument whose type is outside the signature is
+		// reported before any range check of another argument (signature
+		// validation precedes the function body; corpus:
+		// find_first(string, 'string', `1.3`, '2') -> invalid-type).
+		switch name {
+		case "find_first", "find_last", "pad_left", "pad_right", "replace", "split":
+			if in.f.err&InvType != 0 && in.f.err&InvValue != 0 {
+				in.f.err &^= InvValue
+			}
+		}
 		return jv.VNull()
 	}
 	return v
